@@ -66,6 +66,14 @@ pub fn random_braid(r: &mut Rng, strands: usize, len: usize) -> (Vec<i32>, Optio
         w.push(if r.bool() { i } else { -i });
     }
     r.shuffle(&mut w);
+    // make braid relations (Reidemeister III) applicable now and then
+    if strands >= 3 && r.bool() {
+        let i = 1 + r.below(strands as u64 - 2) as i32;
+        let sg = if r.bool() { 1 } else { -1 };
+        let (a, b) = if r.bool() { (i, i + 1) } else { (i + 1, i) };
+        let pos = r.below(w.len() as u64 + 1) as usize;
+        for (k, g) in [a, b, a].into_iter().enumerate() { w.insert(pos + k, sg * g); }
+    }
     let l = braid_closure(strands, &w);
     (w, l)
 }
